@@ -42,6 +42,8 @@ func init() {
 			ruleServerInfo(c)
 			ruleStartTimeOnlyWhenUnset(c)
 			ruleMethodDecodedAsJSON(c)
+			ruleRequestPredicateTable(c)
+			ruleAccessorDefaults(c, "TABLE.default", c.M.Pkg)
 		},
 	})
 	register(&Def{
@@ -57,6 +59,7 @@ func init() {
 			c.Clause("C18-D2/D3/D4")
 			ruleBridgeIDs(c)
 			ruleParseRequestsNormalisesID(c)
+			ruleBridgeParsesWholeBody(c)
 			ruleConstantFormats(c)
 			c.Clause("C18-D5")
 			ruleAtomicCounter(c, "client", c.M.CNextID)
@@ -74,11 +77,13 @@ func init() {
 			ruleGetterStatus(c)
 			c.Clause("C19-D2/D3")
 			ruleQueryParams(c)
+			ruleQueryStringsWhole(c)
 			ruleQuerySliceBounds(c)
 			c.Clause("C19-D4")
 			ruleBodiesClosed(c)
 			ruleRecvClosesBody(c)
 			ruleGetterAlwaysAnswers(c)
+			ruleAccessorDefaults(c, "TABLE.default", c.M.JhttpPkg)
 			c.Clause("C19-D5")
 			ruleGo(c, pkgGo(c, "jhttp"), 2, "Send, Close")
 		},
@@ -95,6 +100,7 @@ func init() {
 			ruleLoop(c)
 			ruleLoopSuccessReachesFinish(c)
 			ruleAcceptFailureEndsLoop(c)
+			ruleIsErrClosingTable(c)
 			c.Clause("C20-D4")
 			ruleGo(c, pkgGo(c, "server"), 3, "netAccepter watcher, per-connection goroutine, stop watcher")
 			_ = ir.Name
